@@ -704,6 +704,10 @@ def to_coq(classes, funcs):
     out.append("Lemma reset_fields_ok : check_all classes funcs = true.")
     out.append("Proof. vm_compute. reflexivity. Qed.")
     out.append("")
+    out.append("(* the callee closures of the FollowAll roots are closed under the extracted call edges (no reachable function was lost) *)")
+    out.append("Lemma reach_closed_ok : reach_closed funcs = true.")
+    out.append("Proof. vm_compute. reflexivity. Qed.")
+    out.append("")
     return "\n".join(out)
 
 
